@@ -274,30 +274,28 @@ Qed.
 Lemma pint_loop_ok : forall fuel F x p il jr am aM s1 s2,
   OVal x il jr -> jr < length x -> length x <= F -> jr - il < fuel ->
   il <= S p <= jr -> (s1 = false -> il <= p) ->
-  (s2 = false -> S (S p) <= jr \/ (jr = S p /\ S (S p) = length x)) ->
   (s1 = true -> is_kth x p am) -> (s2 = true -> is_kth x (S p) aM) ->
   exists x' am' aM', pint_loop fuel F x p il jr am aM s1 s2 = Ok (x', am', aM') /\
-    Permutation x' x /\ is_kth x' (S p) aM' /\
-    (is_kth x' p am' \/ (S (S p) = length x /\ am' = aM')).
+    Permutation x' x /\ is_kth x' p am' /\ is_kth x' (S p) aM'.
 Proof.
-  induction fuel as [|f IH]; intros F x p il jr am aM s1 s2 OV Hlen HF Hfuel Hw H1 H2 K1 K2; [lia|].
+  induction fuel as [|f IH]; intros F x p il jr am aM s1 s2 OV Hlen HF Hfuel Hw H1 K1 K2; [lia|].
   cbn [pint_loop].
   destruct (s1 && s2) eqn:Es.
   - assert (s1 = true /\ s2 = true) as [E1 E2] by (destruct s1; destruct s2; simpl in Es; auto; discriminate).
-    exists x, am, aM. split; [reflexivity|]. split; [apply Permutation_refl|]. split; [auto|left; auto].
+    exists x, am, aM. split; [reflexivity|]. split; [apply Permutation_refl|]. split; auto.
   - destruct (pass_ok F x il jr) as [(A & x1 & R & W)|(A & x2 & a & i & j & R & W & P)]; try lia.
-    + (* il == jr: *am = a; *aM = a; return *)
-      rewrite R. cbn [bind]. exists x1, (x1[[il]]), (x1[[il]]). split; [reflexivity|].
+    + (* il == jr: only the missing output is assigned *)
+      rewrite R. cbn [bind].
       assert (Len : length x1 = length x) by (destruct W as (Len & _); exact Len).
       assert (Perm : Permutation x1 x) by (destruct W as (_ & Perm & _); exact Perm).
-      split; [exact Perm|].
       assert (Eil : il = S p) by lia.
       assert (Es1 : s1 = true) by (destruct s1; [reflexivity|specialize (H1 eq_refl); lia]).
       assert (Es2 : s2 = false) by (destruct s2; [subst s1; simpl in Es; discriminate|reflexivity]).
-      split.
+      subst s1 s2.
+      exists x1, am, (x1[[il]]). split; [reflexivity|]. split; [exact Perm|]. split.
+      * apply (is_kth_perm x); [apply Permutation_sym; exact Perm|auto].
       * rewrite Eil. apply single_kth; [lia|].
         rewrite <- Eil. replace il with jr at 2 by lia. apply (oval_win x); try lia; assumption.
-      * right. split; [|reflexivity]. destruct (H2 Es2) as [B|[_ B] ]; [lia|exact B].
     + rewrite R. cbn [bind].
       assert (Len : length x2 = length x) by (destruct W as (Len & _); exact Len).
       assert (Perm : Permutation x2 x) by (destruct W as (_ & Perm & _); exact Perm).
@@ -311,11 +309,11 @@ Proof.
       assert (K2' : s2 = true -> is_kth x2 (S p) aM).
       { intros E. apply (is_kth_perm x); [apply Permutation_sym; exact Perm|auto]. }
       assert (Fin : forall r, (exists x' am' aM', r = Ok (x', am', aM') /\ Permutation x' x2 /\
-                      is_kth x' (S p) aM' /\ (is_kth x' p am' \/ (S (S p) = length x2 /\ am' = aM'))) ->
+                      is_kth x' p am' /\ is_kth x' (S p) aM') ->
                     exists x' am' aM', r = Ok (x', am', aM') /\ Permutation x' x /\
-                      is_kth x' (S p) aM' /\ (is_kth x' p am' \/ (S (S p) = length x /\ am' = aM'))).
+                      is_kth x' p am' /\ is_kth x' (S p) aM').
       { intros r (x' & am' & aM' & Rr & Pr & Ka & Kb). exists x', am', aM'. split; [exact Rr|].
-        split; [eapply Permutation_trans; eassumption|]. split; [exact Ka|]. rewrite <- Len. exact Kb. }
+        split; [eapply Permutation_trans; eassumption|]. split; assumption. }
       assert (SR : OVal x2 il j) by (apply (shrink_right x2 il jr a i j); try lia; assumption).
       assert (SL : OVal x2 i jr) by (apply (shrink_left x2 il jr a i j); try lia; assumption).
       destruct (S p <? j) eqn:E1.
@@ -325,7 +323,6 @@ Proof.
         -- destruct (j =? p) eqn:E3.
            ++ assert (Ej : j = p) by lia.
               apply Fin. apply IH; try lia; try assumption;
-                try (intros E; specialize (H2 E); lia);
                 try (intros _; subst j; exact Kj).
            ++ assert (Ej : j = S p) by lia.
               apply Fin. apply IH; try lia; try assumption;
@@ -333,25 +330,15 @@ Proof.
                 try (intros _; subst j; exact Kj).
 Qed.
 
-Lemma pth_interval_gen : forall F x p, S p < length x -> length x <= F ->
+(* _pth_interval, every p + 1 < n (the last pair p = n-2 included) *)
+Lemma pth_interval_ok : forall F x p, S p < length x -> length x <= F ->
   exists x' am aM, pth_interval F x p = Ok (x', am, aM) /\ Permutation x' x /\
-    is_kth x (S p) aM /\ (is_kth x p am \/ (S (S p) = length x /\ am = aM)).
+    is_kth x p am /\ is_kth x (S p) aM.
 Proof.
   intros F x p Hp HF. unfold pth_interval.
   destruct (pint_loop_ok F F x p 0 (length x - 1) 0%Z 0%Z false false)
     as (x' & am & aM & R & Perm & Ka & Kb); try lia; try discriminate.
   - apply oval_init.
-  - exists x', am, aM. split; [exact R|]. split; [exact Perm|]. split.
-    + eapply is_kth_perm; eassumption.
-    + destruct Kb as [Kb|Kb]; [left; eapply is_kth_perm; eassumption|right; exact Kb].
-Qed.
-
-Lemma pth_interval_ok : forall F x p, S (S p) < length x -> length x <= F ->
-  exists x' am aM, pth_interval F x p = Ok (x', am, aM) /\ Permutation x' x /\
-    is_kth x p am /\ is_kth x (S p) aM.
-Proof.
-  intros F x p Hp HF.
-  destruct (pth_interval_gen F x p) as (x' & am & aM & R & Perm & Ka & Kb); try lia.
-  exists x', am, aM. split; [exact R|]. split; [exact Perm|]. split; [|exact Ka].
-  destruct Kb as [Kb|[Kb _] ]; [exact Kb|lia].
+  - exists x', am, aM. split; [exact R|]. split; [exact Perm|].
+    split; eapply is_kth_perm; eassumption.
 Qed.
